@@ -36,16 +36,37 @@ def run_c12(pid, tier):
     v.coverage.update({
         'states': mc.distinct + tr.distinct, 'transitions': mc.generated + tr.generated,
         'traces_validated_against_impl': len(rows) - len(res['fails']), 'evaluations': len(rows),
-        'distinct_nontrivial': len(set(json.dumps([r['rounds'], r['H'], r['reps']]) for r in rows if len(r['rounds']) >= 2)),
-        'rule': 'every list of <= %d distinct round counts from 0..%d in any order x heralded on/off x repetitions 1..%d (exhaustive), plus 40 random '
+        'distinct_nontrivial': len(set(json.dumps([r['rounds'], r['H'], r['K'], r['reps']]) for r in rows if len(r['rounds']) >= 2)),
+        'rule': 'every list of <= %d distinct round counts from 0..%d in any order x heralded on/off x calibration points on/off x repetitions 1..%d (exhaustive), plus 40 random '
                 'descriptions with round counts <= 40; for each the real kernels are queried through every getter and compared by TLC with IndexKernel.tla; '
                 'non-trivial = at least two blocks' % (ml, mr, reps),
-        'samples': [{k: rows[j][k] for k in ('rounds', 'H', 'reps', 'cycle', 'blocks')} for j in (0, len(rows) // 2)],
+        'samples': [{k: rows[j][k] for k in ('rounds', 'H', 'K', 'reps', 'cycle', 'blocks')} for j in (0, len(rows) // 2)],
         'exhaustive': True,
-        'mc': {'module': 'MCIndexKernel', 'distinct_states': mc.distinct, 'invariant': 'Inv (Tiling, CategoriesOK, CalOK, TranslateOK, EstimateOK)'},
+        'mc': {'module': 'MCIndexKernel', 'distinct_states': mc.distinct, 'invariant': 'Inv (Tiling, CategoriesOK, CalOK, TranslateOK, EstimateOK, DatasetOK with the calibration flag)'},
     })
     v.assumptions += ['TLC/SANY, CommunityModules Json; the table driver harness/drv_kernel.py reports the getters faithfully']
+    v.coverage['extension_general_calibration_kernel'] = extension_general(tier)
     v.finish()
+
+
+def extension_general(tier):
+    """Beyond the listed properties (advisory, never a verdict): the stand-alone GeneralCalibrationIndexKernel against
+    spec/CalKernel.tla -- model check of the design (categories partition the range) and a table of the real getters."""
+    ms, mrp = (2, 3) if tier == 'quick' else (6, 6)
+    mc = run_tlc('MCCalKernel', 'SPECIFICATION Spec\nCONSTANTS MaxStart = %d MaxReps = %d\nINVARIANT Inv\n' % (ms, mrp), workers=2, timeout=600)
+    tin = os.path.join(scratch(), 'calk_in.json')
+    tout = tin.replace('.json', '_out.json')
+    run_impl('drv_calkernel.py', [ms, mrp, tin])
+    rows = json.load(open(tin))
+    tr = run_tlc('CalKernelTrace', 'SPECIFICATION Spec\n', env={'VERIF_IN': tin, 'VERIF_OUT': tout}, workers=1, timeout=600)
+    res = json.load(open(tout))
+    per = {}
+    for f in res['fails']:
+        for c in f['clauses']:
+            per.setdefault(c, []).append({k: rows[f['row'] - 1][k] for k in ('s0', 'H', 'F', 'n', 'cal', 'her')})
+    return {'status': 'advisory: no listed property speaks about this class', 'mc_states': mc.distinct, 'rows': len(rows),
+            'rows_agreeing': len(rows) - len(res['fails']),
+            'deviations': {c: {'count': len(xs), 'first': xs[0]} for c, xs in per.items()}}
 
 
 def run_c13(pid, tier):
